@@ -417,7 +417,7 @@ def contract_a2r(case):
     nl = NLETTERS[mt]
     verdicts = []
     for rn in cands:
-        bads = []
+        bads, exact = [], 0
         for nm in names:
             if nm == rn:
                 continue
@@ -427,6 +427,7 @@ def contract_a2r(case):
                 return ("fail", f"align_to_ref/pairwise-raises/{type(ex).__name__}", f"{msg0}: {ex}")
             got = sp.project(rows, rn, nm)
             want = (prow[rn], prow[nm])
+            exact += got == want
             if got != want:
                 # ties are left open: another equally scoring alignment of the pair is accepted
                 a, b = sp.path_score(got[0], got[1], S, d, e, nl), sp.path_score(want[0], want[1], S, d, e, nl)
@@ -436,9 +437,9 @@ def contract_a2r(case):
                              f"{msg0}: result {rows}; projected onto ({rn},{nm}) = {got}, pairwise alignment is {want}"))
         if not bads:
             return ("ok", len({len(s) for s in seqs}) > 1)
-        verdicts.append(bads)
+        verdicts.append((len(bads), -exact, bads))
     # ref='longest' with several longest sequences: report against the candidate that explains the result best
-    return min(verdicts, key=len)[0]
+    return min(verdicts, key=lambda v: v[:2])[2][0]
 
 
 # ------------------------------------------------------------------------------------------------ progressive
